@@ -25,6 +25,7 @@ EXPLANATION = (
     "Redirect producer (T5), interprocedural provenance of the redirect counter (T4), and a taint rule from declared untrusted "
     "sources (loader responses, registry JSON, npm resolver results) to every panic site reachable from the build entry points (PU)."
 )
+EXPLANATION += " " + 'Plus: positional attribution of batched npm answers, the cached-manifest probe always leaves its memo entry, awaiting a spawned task drives the future returned by the executor.'
 NOT_DECIDED = "that modules not depending on a failure load exactly as without it; termination of arbitrary Loader futures; panics inside dependencies (swc, url, deno_media_type)"
 CONFIGS = ["default", "nofastcheck"]  # thorough tier also analyses the build without fast_check / symbols
 ASSUMPTIONS = [
